@@ -325,7 +325,7 @@ def drv_random_nodefaults(seed, gen_kw):
     return tr
 
 
-DRIVERS = {"cancel_quiet": drv_cancel_quiet, "macro": drv_macro, "pipeline": drv_pipeline, "resubmit_scn": drv_resubmit_scn, "resubmit": drv_resubmit, "resubmit_incomplete": drv_resubmit_incomplete, "hooks": drv_hooks, "cancel": drv_cancel, "random_cancel": drv_random_cancel, "fault": drv_fault, "random_nodefaults": drv_random_nodefaults, "cluster": drv_cluster, "results": drv_results, "random_hpc": drv_random_hpc, "scn": drv_scn, "model_replay": drv_model_replay,
+DRIVERS = {"local": None, "cancel_quiet": drv_cancel_quiet, "macro": drv_macro, "pipeline": drv_pipeline, "resubmit_scn": drv_resubmit_scn, "resubmit": drv_resubmit, "resubmit_incomplete": drv_resubmit_incomplete, "hooks": drv_hooks, "cancel": drv_cancel, "random_cancel": drv_random_cancel, "fault": drv_fault, "random_nodefaults": drv_random_nodefaults, "cluster": drv_cluster, "results": drv_results, "random_hpc": drv_random_hpc, "scn": drv_scn, "model_replay": drv_model_replay,
            "batching_input": drv_batching_input, "dry_pair": drv_dry_pair, "first_round": drv_first_round}
 
 
@@ -1543,9 +1543,30 @@ def check_C15(ctx):
                            "deterministic function of the stages' outcomes, checked against the monitor for all shapes <= 4 stages)")
 
 
+def drv_local(seed, gen_kw):
+    rng = random.Random(seed)
+    scn = scenario.gen(rng, **gen_kw)
+    scn["mode"] = "local"
+    for g in scn["groups"]:
+        g["tb"] = False
+        g["size"] = max(1, g["size"])
+    scn["groups"] = scn["groups"][:1]
+    scn["grp"] = {j: scn["groups"][0]["name"] for j in scn["jobs"]}
+    tr = run.run_hpc(scn, seed)
+    tr["driver"] = ["scn", scn, seed]
+    return tr
+
+
+def local_extra(ctx):
+    """Local mode: the same DAGs run by one process through the node-level queue (reference outcome, order, one start)"""
+    q = ctx.tier == "quick"
+    kw = dict(n_min=2, n_max=7, groups_max=1, allow_time=False)
+    ctx.judge(run_tasks([("local", (s, kw)) for s in seeds(ctx, 120 if q else 2000, 44)]), "random DAGs in local mode")
+
+
 CHECKS = {"C17": check_C17, "C19": check_C19, "C18": check_C18, "C20": check_C20, "C15": check_C15, "C13": check_C13, "C16": check_C16, "C14": check_C14, "C01": check_C01, "C07": check_C07, "C08": check_C08, "C10": check_C10, "C11": check_C11, "C12": check_C12}
-for _i, _p in enumerate(["C03", "C04"]):
-    CHECKS[_p] = make_protocol_check(10 + _i)
+DRIVERS["local"] = drv_local
+CHECKS["C03"] = make_protocol_check(10, extra=local_extra)
 
 
 def liveness_extra(ctx):
@@ -1618,6 +1639,8 @@ def cancel_shapes_extra(ctx):
         for s in range(1 if q else 4):
             tasks.append(("scn", (scn, ctx.seed + 7 * i + s)))
     ctx.judge(run_tasks(tasks), "cancellation shapes: all 3-job DAGs x flags x failing job x placement")
+    kwl = dict(n_min=3, n_max=7, groups_max=1, allow_time=False)
+    ctx.judge(run_tasks([("local", (s, kwl)) for s in seeds(ctx, 100 if q else 1500, 46)]), "random DAGs in local mode")
     # the node-level queue of the model on the shapes where a flagged and an unflagged dependent share a failed blocker
     node_queue_suite(ctx)
     ctx.impl_model("JadeImpl cancellation on the node and by a submitter",
@@ -1644,6 +1667,8 @@ def order_extra(ctx):
                                   squeue_empty_skip=skip, faults=True)
                 tasks.append(("scn", (sc, ctx.seed + sd)))
     ctx.judge(run_tasks(tasks), "status queries answered with an empty listing while batches are active")
+    kwl = dict(n_min=2, n_max=7, groups_max=1, allow_time=False)
+    ctx.judge(run_tasks([("local", (s, kwl)) for s in seeds(ctx, 100 if q else 1500, 45)]), "random DAGs in local mode")
     node_queue_suite(ctx)
 
 
